@@ -5,6 +5,41 @@ import re
 from pathlib import Path
 
 VERIF = Path(__file__).resolve().parents[2]
+
+HISTORY_R5 = {
+    "C01-r5m1": "missed at first -> unions one of whose alternatives is a wrapped type (list / tuple / refined list of the recursive symbol) in the corpus; the new corpus also exposed a KeyError of the progressive decider on such unions (fixed: 3152aa3)",
+    "C01-r5m2": "missed at first -> float refinements with int-literal bounds, dSGE genotypes whose float genes are the extreme ones",
+    "C02-r5m1": "missed at first -> bounded lists whose elements can never / only sometimes be created (dependent VarRange over an empty sibling list)",
+    "C02-r5m2": "missed at first -> alphabets of punctuation (^ - ] . + * [ $ | ?); strings cross the wire hex-encoded and are decoded in Lean",
+    "C03-r5m2": "missed at first -> production weights, weight 0 on the strictly shallowest production, in both depth modes",
+    "C04-r5m1": "missed at first -> expansion-depthing grammars with and without weights, judged draw by draw against the model's creation and for membership (caught as a broken correspondence: no-failing-input-found)",
+    "C04-r5m2": "missed at first -> a refinement that depends on two siblings named in non-alphabetical order (Dependent('scale,base')) in the corpus",
+    "C05-r5m1": "missed at first -> real dataclasses with non-constructor attributes (field(init=False) slots, ClassVars) reflected by the harness's OWN reading of the constructor; unknown symbols reported",
+    "C05-r5m2": "missed at first (only a broken correspondence) -> stand-alone concrete recursive classes in the corpus and an independent derivation-graph oracle for the recursive set",
+    "C07-r5m1": "missed at first -> late offspring: crossover of an already mapped dSGE genotype with a never mapped one, children mapped repeatedly",
+    "C07-r5m2": "missed at first -> an all-zero row and a row below the chooser's resolution in the persistent WeightedStringHandler matrix",
+    "C08-r5m1": "missed at first -> productions of one abstract class defined in separate modules which the worker imports in an order given by its environment",
+    "C09-r5m1": "missed at first -> grammars with a production that can fail (backtracking inside mutation / crossover) among the generated ones; the synthesis context of every node is part of the snapshot",
+    "C09-r5m2": "missed at first -> steps run with the ParallelEvaluator on partly evaluated pools (three layouts)",
+    "C10-r5m2": "missed at first -> history over the WeightedStringHandler grammar: the handler's matrix and the set of creatable strings",
+    "C12-r5m1": "missed at first -> the individuals were searched before under a live problem over the SAME fitness function object with the opposite direction",
+    "C12-r5m2": "missed at first -> one-objective minimised multi-objective problems; the best aggregate is recomputed from the components and the declared directions",
+    "C13-r5m2": "missed at first -> programs whose str() does not tell them apart under the ParallelEvaluator",
+    "C14-r5m1": "missed at first -> ONE budget object used by two searches one after the other",
+    "C14-r5m2": "missed at first -> a search space of exactly one program (genotypes compare equal) under steps without novelty",
+    "C15-r5m1": "missed at first -> Population and GP runs with 257..1025 individuals",
+    "C15-r5m2": "missed at first -> injected programs deeper than the representation's depth limit",
+    "C16-r5m1": "missed at first -> elitism under live problems that share ONE fitness function object with opposite directions",
+    "C16-r5m2": "missed at first -> ElitismStep with the ParallelEvaluator and a fitness function of uneven cost, on unevaluated and partly evaluated pools",
+    "C17-r5m1": "missed at first -> lexicase with a case on which every candidate is NaN (modelled as a skipped case; judged by the Lean predicate on the informative cases)",
+    "C17-r5m2": "missed at first -> partly evaluated pools under the sequential and the parallel evaluator, judged by the fitness the problem assigns to each program",
+    "C18-r5m2": "missed at first -> equal and neighbouring float bounds that are not short binary fractions, every gene 0..1025",
+    "C19-r5m1": "missed at first -> whole programs built with the weight-aware decider on grammars with a switched-off production beside a failing sibling",
+    "C19-r5m2": "missed at first -> whole programs mapped by the stack representation on grammars whose switched-off production is a nested abstract type",
+    "C20-r5m1": "missed at first -> strict improvements between neighbouring floats / in the 12th digit under the real tracker with a best-only log",
+}
+
+
 FIRST = "caught on the first evaluation"
 HISTORY_R2 = {
     "C01-r2m1": "missed at first (size-refined lists only ever had class elements) -> the grammar generator gives ListSizeBetween lists base / list / refined element types",
@@ -100,6 +135,7 @@ def main():
     hist.update(HISTORY_R2)
     hist.update(HISTORY_R3)
     hist.update(HISTORY_R4)
+    hist.update(HISTORY_R5)
     rows, caught = [], 0
     dirs = sorted(p for p in (VERIF / "seeded").iterdir() if p.is_dir())
     for d in dirs:
